@@ -26,6 +26,17 @@ type Stats struct {
 
 func Available() bool { return len(runtime.List()) > 0 }
 
+var step = make(chan struct{}, 1)
+
+// Step ends the current epoch now: a workload that consists of very many very short rounds asks for a new choice of sites
+// every few rounds instead of every 30-150 ms.
+func Step() {
+	select {
+	case step <- struct{}{}:
+	default:
+	}
+}
+
 // Start runs the scheduler until stop is called.
 func Start(seed int64) (stop func() Stats) {
 	sites := runtime.List()
@@ -102,6 +113,7 @@ func Start(seed int64) (stop func() Stats) {
 			select {
 			case <-quit:
 				return
+			case <-step:
 			case <-time.After(time.Duration(30+rng.Intn(120)) * time.Millisecond):
 			}
 		}
